@@ -39,7 +39,8 @@ class ParentCase:
                 a = ""
                 if self.kind == "bare":
                     call = f"chk({100 + j}, ~)?" if fall else f"tg({100 + j}, ~)"
-                    a = {"none": "", "ren": f"#[map(q{j})]", "expr": f"#[map({call})]"}[it]
+                    a = {"none": "", "ren": f"#[map(q{j})]", "expr": f"#[map({call})]",
+                         "kexpr": f"#[o2o(owned_into(tg({200 + j}, ~)))] #[o2o(ref_into(tg({300 + j}, ~)))]"}[it]
                 bf.append(f"{a} pub b{j}: V,")
             if inner:
                 bf.append("pub inner: Inner,")
